@@ -752,6 +752,47 @@ def d9_expected_character_is_unescaped(chk: Check) -> None:
         raise AnalysisError("expectation-clearing statement not found")
 
 
+def d10_membership_in_real_containers(chk: Check, cl: List[FuncInfo]) -> None:
+    """`x in (A)` is `x in A`: parentheses alone make no tuple.  With an
+    enum member (or a number, None) on the right, `in` raises TypeError --
+    on the paths that reach it, which for a new validation in the parser
+    are exactly the inputs it was written for."""
+    chk.rule("C14-D10", "the right operand of every in / not in of the "
+             "closure is a container expression, never a bare enum member "
+             "or constant scalar", floor=10)
+    prog = chk.prog
+    n = 0
+    for fi in cl:
+        for c in walk_local(fi.node):
+            if not (isinstance(c, ast.Compare) and any(
+                    isinstance(o, (ast.In, ast.NotIn)) for o in c.ops)):
+                continue
+            for op, right in zip(c.ops, c.comparators):
+                if not isinstance(op, (ast.In, ast.NotIn)):
+                    continue
+                n += 1
+                bad = False
+                if isinstance(right, ast.Attribute) and \
+                        isinstance(right.value, ast.Name) and \
+                        prog.has_class(right.value.id) and \
+                        prog.is_enum(prog.class_by_name(right.value.id)):
+                    bad = True
+                if isinstance(right, ast.Constant) and not isinstance(
+                        right.value, (str, bytes)):
+                    bad = True
+                text = "{}: `{}`".format(fi.short, src(c)[:50])
+                if bad:
+                    chk.fail("C14-D10", fi, c, text,
+                             "`{}` is not a container (a one-element tuple "
+                             "needs its comma): the membership test raises "
+                             "TypeError whenever it is reached".format(
+                                 src(right)))
+                else:
+                    chk.ok("C14-D10", fi, c, text, "container", False)
+    if n < 10:
+        raise AnalysisError("membership tests in the closure: {}".format(n))
+
+
 def d7_attrs_become_text_by_conversion(chk: Check) -> None:
     """The attributes of a segment are text, an int (INDEX), or one of the
     terms objects (SearchTerms, CollectorTerms, SearchKeywordTerms -- a
@@ -804,4 +845,5 @@ def run(chk: Check) -> None:
     d7_attrs_become_text_by_conversion(chk)
     d8_exceptions_are_constructible(chk, cl)
     d9_expected_character_is_unescaped(chk)
+    d10_membership_in_real_containers(chk, cl)
     chk.notes.append("closure: {} functions".format(len(cl)))
